@@ -118,8 +118,31 @@ func TestC06Big(t *testing.T) {
 			t.Fatalf("Apply(len) over a cell of %d bytes saw %d bytes", lenOf(w), lv.ItemAt(i))
 		}
 	}
+	// the ToUpper built-in on cells whose first letter that changes comes after a long unchanged prefix (the prefix is
+	// copied in one piece into a conversion buffer of some size), on string and enum columns
+	var cells []string
+	for _, prefix := range []int{0, 7, 1019, 1020, 1021, 1023, 1024, 1025, 2047, 2048, 2049, 3000, 4095, 4096, 4097, 5000, 70000} {
+		for _, tail := range []string{"b", "bç", "ß", ""} {
+			cells = append(cells, strings.Repeat("A", prefix)+tail+"Z9")
+		}
+	}
+	uq := qframe.New(map[string]interface{}{"s": cells, "e": cells}, newqf.Enums(map[string][]string{"e": nil})).Sort(qframe.Order{Column: "s", Reverse: true})
+	up := uq.Apply(qframe.Instruction{Fn: "ToUpper", DstCol: "us", SrcCol1: "s"}, qframe.Instruction{Fn: "ToUpper", DstCol: "ue", SrcCol1: "e"})
+	if up.Err != nil {
+		t.Fatalf("ToUpper over long cells: %v", up.Err)
+	}
+	sv, usv, uev := up.MustStringView("s"), up.MustStringView("us"), up.MustEnumView("ue")
+	for i := 0; i < up.Len(); i++ {
+		w := strings.ToUpper(*sv.ItemAt(i))
+		if g := usv.ItemAt(i); g == nil || *g != w {
+			t.Fatalf("ToUpper of a string cell of %d bytes (unchanged prefix, then %q) is wrong: %d bytes, want %d", len(*sv.ItemAt(i)), clipS((*sv.ItemAt(i))[max(0, len(*sv.ItemAt(i))-6):]), len(*g), len(w))
+		}
+		if g := uev.ItemAt(i); g == nil || *g != w {
+			t.Fatalf("ToUpper of an enum cell of %d bytes is wrong", len(*sv.ItemAt(i)))
+		}
+	}
 	evC06.CaseHash(true, seed, func() string {
-		return fmt.Sprintf("volume case: Apply producing and reading string cells of %v bytes", lens)
+		return fmt.Sprintf("volume case: Apply producing and reading string cells of %v bytes; ToUpper after unchanged prefixes of 0..70000 bytes", lens)
 	}, "long-cells-2^24")
 }
 
